@@ -590,7 +590,11 @@ class World:
                 p.reaped = True
                 p.sem.release()
 
-                if not self.killwait.acquire(timeout=10):
+                if not self.killwait.acquire(timeout=90):
+                    import faulthandler, sys
+
+                    faulthandler.dump_traceback(file=sys.stderr, all_threads=True)
+
                     raise HarnessError(f'thread of {p} did not unwind at teardown')
 
         for p in self.procs:
